@@ -42,6 +42,25 @@ def deep_docs(ctx):
         docs.append('${' * d + '}$' * d)
         docs.append('\\begin{itemize}\\item ' * d + '\\end{itemize}' * d)
         docs.append('\\(\\x{' * min(d, 20) + '}\\)' * min(d, 20))
+    # items inside the brace argument of a command that stands in an item body, and other alternations that are linear
+    # on the current code (the look-ahead of read_item reads no argument): depth 40 must come back at once
+    for d in (5, 20, 40):
+        s = 'x'
+        for _ in range(d):
+            s = '\\item a \\x{' + s + '}'
+        docs.append(s)
+        s = 'x'
+        for _ in range(d):
+            s = '{\\item[' + 'o' + '] \\x{' + s + '} y}'
+        docs.append(s)
+        s = 'x'
+        for _ in range(d):
+            s = '$\\x{' + s + '}$'
+        docs.append(s)
+        s = 'x'
+        for _ in range(d):
+            s = '\\x[' + '{' + s + '}' + ']'
+        docs.append(s)
     # alternating command-argument / environment nesting: the look-ahead re-parses, cost ~ 2.8^(depth/2)
     for d in (2, 6, ctx.pick(10, 13)):
         s = 'x'
